@@ -262,6 +262,8 @@ def run(R):
                      "and the characters that end a token or a line (quote, backslash, LF, CR) are all escaped")
     R.rule("C14-R3", "reader symmetry: every term cleaner used by a loader decodes literal bodies with decode_ntriples_literal")
     case_preserved(R, "C14-R9")
+    import c13
+    c13.r13(R, rid="C14-R10", only_quoted=True)
     gens = []
     for nm in ("generate_ntriples", "generate_nquads", "generate_turtle"):
         b = R.body("C14-R1", "SparqlDatabase::" + nm, crate="kolibrie")
